@@ -874,6 +874,7 @@ class StmtGen:
             s["query"].pop("with_", None)
         if r.random() < 0.3:
             c = dict(target=[r.choice(IDENTS) for _ in range(r.randrange(0, 3))], constraint="", nothing=r.random() < 0.5, updates=[], where=None)
+            if not c["target"] and r.random() < 0.4: c["constraint"] = r.choice(["cn1", "t_pkey"])
             if not c["nothing"]:
                 c["updates"] = [(r.choice(IDENTS), rand_expr(r, r.choice([1, 3]))) for _ in range(r.randrange(1, 3))]
                 if r.random() < 0.4: c["where"] = rand_expr(r, 4)
@@ -1100,6 +1101,7 @@ class StmtRenderer:
             if c:
                 out += ["ON", "CONFLICT"]
                 if c["target"]: out += ["("] + self.commas([[x] for x in c["target"]]) + [")"]
+                elif c["constraint"]: out += ["ON", "CONSTRAINT", c["constraint"]]
                 if c["nothing"]: out += ["DO", "NOTHING"]
                 else:
                     out += ["DO", "UPDATE", "SET"] + self.commas([[n, "="] + self.E(e) for n, e in c["updates"]])
@@ -1315,3 +1317,13 @@ class StmtPrescriber:
             return node("TruncateStatement", Tables=list(s["names"]), RestartIdentity=s["identity"] == "RESTART",
                         ContinueIdentity=s["identity"] == "CONTINUE", CascadeType=s["cascade"])
         raise ValueError(k)
+
+
+# clause keywords whose spelling never reaches the tree: safe to write in lower case (layout variation)
+CASE_FREE_KEYWORDS = {"SELECT", "FROM", "WHERE", "GROUP", "BY", "HAVING", "ORDER", "LIMIT", "OFFSET", "INSERT", "INTO", "VALUES", "UPDATE", "SET",
+                      "DELETE", "RETURNING", "ON", "CONFLICT", "DO", "NOTHING", "CONSTRAINT", "WITH", "RECURSIVE", "AS", "JOIN", "INNER", "LEFT", "RIGHT",
+                      "FULL", "OUTER", "CROSS", "NATURAL", "USING", "DISTINCT", "MATERIALIZED", "NULLS", "FIRST", "LAST", "ASC", "DESC", "ROLLUP", "CUBE"}
+
+
+def lower_clause_keywords(words):
+    return [w.lower() if w in CASE_FREE_KEYWORDS else w for w in words]
